@@ -5,5 +5,6 @@ CONSTANTS
   MaxTok = 4
   MaxFrag = 0
   EmitLen = 0
+  EmitFrag = 3
   EmitTok = 0
   Bounded = FALSE
